@@ -96,7 +96,9 @@ def _run_contract(job):
                             break
             out["differential"] = diff
         for o in obls:
-            if o.path_id in dead:
+            if o.path_id in dead and o.kind != "inline":
+                # (inline obligations - call-site preconditions, in-code asserts, loop invariants - carry their own
+                # hypotheses snapshot: an assert that FAILS makes the rest of its path dead, and must still be reported)
                 continue
             if o.kind != "cover":
                 vc.discharge(o, timeout_ms=c.solver_timeout_ms)
